@@ -20,7 +20,7 @@ missed = []
 for m in sorted(glob.glob(os.path.join(ROOT, 'seeded', '*', 'meta.json'))):
     d = json.load(open(m))
     caught = d.get('caught_by') or []
-    if not caught:
+    if not caught and not d.get('note'):
         missed.append(d['id'])
     classes = []
     for p in caught:
@@ -29,10 +29,12 @@ for m in sorted(glob.glob(os.path.join(ROOT, 'seeded', '*', 'meta.json'))):
             if mm:
                 classes.append('%s `%s`' % (p, mm.group(1)))
     rows.append('| %s | %s | %s | %s |' % (d['id'], clip(d.get('summary'), 210), clip(d.get('needs'), 170),
-                                         '; '.join(classes) or ', '.join(caught) or '**not caught**'))
+                                         '; '.join(classes) or ', '.join(caught) or ('not counted: ' + clip(d['note'], 160) if d.get('note') else '**not caught**')))
 table = ['| id | change (one per sub-agent delivery) | needs | caught by: check and first violation class (quick tier, seed 0) |', '|---|---|---|---|'] + rows
-text = '\n'.join(table) + '\n\n%d seeded changes, %d caught by at least one registered quick check%s.\n' % (
-    len(rows), len(rows) - len(missed), '' if not missed else '; not caught: ' + ', '.join(missed))
+noted = [json.load(open(m))['id'] for m in sorted(glob.glob(os.path.join(ROOT, 'seeded', '*', 'meta.json'))) if json.load(open(m)).get('note') and not json.load(open(m)).get('caught_by')]
+text = '\n'.join(table) + '\n\n%d seeded changes, %d caught by at least one registered quick check%s%s.\n' % (
+    len(rows), len(rows) - len(missed) - len(noted), '' if not missed else '; not caught: ' + ', '.join(missed),
+    '' if not noted else '; not counted (see their rows): ' + ', '.join(noted))
 if '--write' in sys.argv:
     p = os.path.join(ROOT, 'DESIGN.md')
     s = open(p).read()
